@@ -15,6 +15,9 @@
 // Keys are symbolic: three registered keys k1,k2,k3 and a dispatched key kd -- the solver partitions them into
 // equal / different.
 #include "common.h"
+#if CFG == 6
+template class std::basic_string<char>;   // extern template in libstdc++: put its members into this translation unit's IR
+#endif
 
 #ifndef CFG
 #define CFG 0
